@@ -320,6 +320,36 @@ func runC05(p *core.Prog, r *core.Report, tier string) {
 		}
 	}
 
+	// ---- (i) the proposal's steps run on the duty's context, not on one bounded for an optional step ----
+	// a context narrowed with a timeout/deadline for a degradable step (graffiti, auction) and then handed on makes
+	// the failure of the optional step fatal: every later step sees an expired context and the proposal is skipped
+	nCtx := 0
+	for _, f := range fns {
+		if f.Parent() != nil {
+			continue
+		}
+		for _, l := range chain {
+			if l.fn != f {
+				continue
+			}
+			ci, ok := l.site.(ssa.CallInstruction)
+			if !ok || len(ci.Common().Args) == 0 {
+				continue
+			}
+			for _, a := range ci.Common().Args {
+				if !strings.HasSuffix(a.Type().String(), "context.Context") {
+					continue
+				}
+				nCtx++
+				d := ds.D(a)
+				bad := d.MentionsCall("context.WithTimeout") || d.MentionsCall("context.WithDeadline")
+				r.Check(!bad, "C05.i", core.FnKey(f)+"|step-context|"+core.CalleeName(ci.Common()), p.Pos(ci.Pos()), "the next step of the proposal runs on the caller's context",
+					"the context handed to the next step of the proposal was narrowed by a timeout in this function ("+d.String()+"): when the bounded step uses up its time the proposal itself is abandoned")
+			}
+		}
+	}
+	r.Floor("C05.i step contexts on the way to signing", nCtx, 2)
+
 	// ---- (h) maybe-nil dereferences in the package ----
 	nDeref := 0
 	for _, f := range fns {
